@@ -8,4 +8,3 @@ func rulesEffC13(c *Ctx, r *Report) {}
 
 func rulesEffC14(c *Ctx, r *Report) {}
 
-func rulesSamCodec(c *Ctx, r *Report) {}
